@@ -203,6 +203,15 @@ func (tr *c13Truth) visible() map[int]string {
 	return res
 }
 
+func c13SortedVisible(m map[int]string) []int {
+	ks := make([]int, 0, len(m))
+	for k := range m {
+		ks = append(ks, k)
+	}
+	sort.Ints(ks)
+	return ks
+}
+
 func c13SortedKeys(m map[int]bool) []int {
 	ks := make([]int, 0, len(m))
 	for k, v := range m {
@@ -1026,6 +1035,9 @@ func c13Run(t *testing.T, ops []c13Op, emit bool) *c13Result {
 			col := *e.col
 			col.user = usr
 			for ci, cname := range c13ChanNames {
+				if !vThorough() && len(revP) == 0 && (i+len(res.pulls))%2 == 1 {
+					break // quick tier: half of the requests without revoked channels
+				}
 				per, err := usr.CollectionChannelGrantedPeriods(e.col.ScopeName, e.col.Name, cname)
 				if err != nil {
 					fail(i, "operation_succeeds", "op-error:periods", err.Error())
@@ -1101,6 +1113,27 @@ func c13Run(t *testing.T, ops []c13Op, emit bool) *c13Result {
 					if _, held := client[le.Doc]; held {
 						skippedRemoval[le.Doc] = i
 					}
+				}
+			}
+		}
+		if op.Limit > 0 && len(rows) == 0 {
+			// a page without rows leaves the client at the same position: if the un-limited response from that position
+			// is not empty the client will ask again and again and never receive it
+			if full, ferr := e.request(usr, since, 0); ferr == nil && len(full) > 0 {
+				differs := false
+				vnow := tr.visible()
+				for d := range client {
+					if _, ok := vnow[int(d)]; !ok {
+						differs = true
+					}
+				}
+				for d := range vnow {
+					if _, ok := client[uint64(d)]; !ok {
+						differs = true
+					}
+				}
+				if differs {
+					fail(i, "paged_revocation_progress", "paged-revocation-no-progress", fmt.Sprintf("op %d: the request with limit %d from position %s returned no rows (same last_seq) although the un-limited response from the same position has %d rows (%+v) and the client (%v) differs from the visible set (%v): the client resumes from the same position for ever", i, op.Limit, since, len(full), full, client, c13SortedVisible(vnow)))
 				}
 			}
 		}
@@ -1639,6 +1672,11 @@ func c13Corpus() map[string][]c13Op {
 		"revoke_then_paged_backfill":  {uch(1), P(1, 1), P(2, 2), P(3, 2), pull(0), uch(), uch(2), pull(1), pull(1), pull(1), pull(1), pull(0)},
 		"revoke_grant_same_seq_paged": {uch(1), P(1, 1), P(2, 1), P(3, 2), P(4, 2), pull(0), uch(2), pull(1), pull(1), pull(1), pull(1), pull(1), pull(0)},
 		"role_revoke_then_paged_backfill": {rch(1, 1), uro(1), P(1, 1), P(2, 2), P(3, 2), P(4, 2), pull(0), uro(), rch(2, 2), uro(2), pull(2), pull(1), pull(1), pull(0)},
+		// a revoked channel whose first entries past the position stay visible through another channel: the revocation feed
+		// must keep looking for something to revoke, the examined-but-skipped entries must not use up the page limit
+		"paged_revocation_skips_visible":      {uch(2), rch(1, 1), uro(1), P(1, 1, 2), P(2, 1, 2), P(3, 1), pull(0), rch(1), pull(1), pull(1), pull(1), pull(0)},
+		"paged_revocation_skips_visible_user": {uch(1, 2), P(1, 1, 2), P(2, 1, 2), P(3, 1), P(4, 1), pull(0), uch(2), pull(1), pull(1), pull(1), pull(1), pull(0)},
+		"paged_revocation_skips_visible_2":    {uch(2), rch(1, 1), uro(1), P(1, 1, 2), P(2, 1, 2), P(3, 1, 2), P(4, 1), pull(0), uro(), pull(2), pull(2), pull(2), pull(0)},
 		// a role (re-)created after a document granted it a channel
 		"role_created_after_doc_grant":   {{Kind: "put", Doc: 3, Acc: []c13Grant{{Role: true, To: 1, V: []int{1}}}}, uro(1), uch(2), P(1, 1), P(2, 2), pull(0), rch(1), pull(0)},
 		"role_recreated_after_doc_grant": {rch(1), uro(1), {Kind: "put", Doc: 3, Acc: []c13Grant{{Role: true, To: 1, V: []int{1}}}}, P(1, 1), pull(0), {Kind: "delrole", Who: 1}, pull(0), rch(1), pull(0)},
@@ -1866,6 +1904,55 @@ func c13Synthetic(t *testing.T, rec *vRecorder, rnd *vRand, n int) {
 	}
 }
 
+
+// paged revocations: documents in A and B first (in sequence order), then documents in A only; the user holds B
+// directly and A directly or through a role; after a completed pull A is lost (one of five ways) and the client pulls
+// with pages of 1..2 rows until it is caught up.  No sync-function grants: also replayed on the whole-system model.
+func c13PagedRevocationHistory(r *vRand) []c13Op {
+	var ops []c13Op
+	viaRole := r.Chance(60)
+	if viaRole {
+		ops = append(ops, c13Op{Kind: "uchans", Set: []int{2}}, c13Op{Kind: "rchans", Who: 1, Set: []int{1}}, c13Op{Kind: "uroles", Set: []int{1}})
+	} else {
+		ops = append(ops, c13Op{Kind: "uchans", Set: []int{1, 2}})
+	}
+	both := 1 + r.Intn(3)
+	doc := 1
+	for k := 0; k < both && doc <= c13NDocs; k++ {
+		ops = append(ops, c13Op{Kind: "put", Doc: doc, Chans: []int{1, 2}})
+		doc++
+	}
+	for doc <= c13NDocs {
+		if r.Chance(75) {
+			ops = append(ops, c13Op{Kind: "put", Doc: doc, Chans: []int{1}})
+		} else {
+			ops = append(ops, c13Op{Kind: "put", Doc: doc, Chans: []int{2}})
+		}
+		doc++
+	}
+	ops = append(ops, c13Op{Kind: "pull"})
+	if r.Chance(30) {
+		ops = append(ops, c13Op{Kind: "put", Doc: 1 + r.Intn(both), Chans: []int{1, 2}}) // an A-and-B document changes after the pull
+	}
+	if viaRole {
+		switch r.Intn(3) {
+		case 0:
+			ops = append(ops, c13Op{Kind: "rchans", Who: 1})
+		case 1:
+			ops = append(ops, c13Op{Kind: "uroles"})
+		default:
+			ops = append(ops, c13Op{Kind: "delrole", Who: 1})
+		}
+	} else {
+		ops = append(ops, c13Op{Kind: "uchans", Set: []int{2}})
+	}
+	lim := 1 + r.Intn(2)
+	for k := 0; k < 5; k++ {
+		ops = append(ops, c13Op{Kind: "pull", Limit: lim})
+	}
+	return append(ops, c13Op{Kind: "pull"})
+}
+
 // ---------- bounded-exhaustive histories ----------
 // Every sequence of length <= L over the alphabet below (1 user, role r1, document d1, channels A and B), run after a
 // fixed prefix that gives the user channel A twice over (directly and through r1), a document in A and a completed pull;
@@ -1932,7 +2019,7 @@ func c13Shrink(t *testing.T, ops []c13Op, mon, sig string) []c13Op {
 // ---------- entry point ----------
 func TestVerifC13(t *testing.T) {
 	rec := vNewRecorder(t, "C13", "C13.C13_Corr")
-	rec.shardSize = 1000 // the cases are small terms: loading the model dominates a shard's cost
+	rec.shardSize = 1600 // the cases are small terms: loading the model dominates a shard's cost
 	defer rec.Finish()
 	rnd := vNewRand(vSeed())
 	if os.Getenv("C13_DEBUG") != "" {
@@ -1966,7 +2053,7 @@ func TestVerifC13(t *testing.T) {
 			}
 			reported[f.monitor+"/"+f.sig] = true
 			small := ops
-			if f.at >= 0 && !strings.HasPrefix(f.sig, "op-error") {
+			if f.at >= 0 && !strings.HasPrefix(f.sig, "op-error") && stream != "corpus" { // the scripted scenarios are minimal already
 				small = c13Shrink(t, ops[:c13Min(len(ops), f.at+1)], f.monitor, f.sig)
 			}
 			sres := c13Run(t, small, false)
@@ -2057,7 +2144,7 @@ func TestVerifC13(t *testing.T) {
 	rec.Extra("exhaustive_scope", fmt.Sprintf("all %d sequences of length 1..%d over %d operations (1 user, role r1, documents d1 d2, channels A B), after each of 3 prefixes (channel A held directly / through r1 / both; d1 in A; completed pull), followed by two page-limited pulls and a full pull", nEx, maxLen, len(alpha)))
 
 	// (iii) seeded random histories
-	nRand := vBudget(30, 400)
+	nRand := vBudget(24, 400)
 	if os.Getenv("VERIF_BUDGET") != "" {
 		nRand = vBudget(30, 120) // search rounds: other seeds, a few hundred histories each
 	}
@@ -2070,9 +2157,12 @@ func TestVerifC13(t *testing.T) {
 	for i := 0; i < nRand/2; i++ {
 		history("adversarial", "adversarial", c13RandomHistory(rnd, true), true)
 	}
+	for i := 0; i < vBudget(8, 80); i++ {
+		history("paged_revocation", "paged_revocation", c13PagedRevocationHistory(rnd), true)
+	}
 
 	// (iv) the component functions on synthetic principals
-	nSyn := vBudget(120, 1500)
+	nSyn := vBudget(90, 1500)
 	if v := os.Getenv("C13_NSYN"); v != "" {
 		nSyn, _ = strconv.Atoi(v)
 	}
